@@ -9,6 +9,7 @@ import DecModel.HkGen
 import DecGen.Api
 import DecModel.RoundHelpers
 import DecModel.PackHelpers
+import DecModel.ArithHelpers
 
 namespace Dec
 
@@ -27,7 +28,7 @@ def wordsOf (vs : List Val) : Option (List Nat) :=
 
 /-- hand-written helper models: name, mode, incoming flags, argument words ↦ result words and outgoing flags
 (`none`: no model for that name, or input outside the domain on which the model claims to mirror the code) -/
-def hkModels : List (String → Mode → Nat → List Nat → Option (List Nat × Nat)) := [hkRound, hkPack]
+def hkModels : List (String → Mode → Nat → List Nat → Option (List Nat × Nat)) := [hkRound, hkPack, hkArith]
 
 def showWords (ws : List Nat) : String := " ".intercalate (ws.map fun w => "G" ++ String.ofList (Nat.toDigits 16 w))
 
